@@ -183,12 +183,13 @@ PROPS["C04"] = dict(
 
 PROPS["C06"] = dict(
     title="Generators layer like dictionaries and name their output by its final content",
-    modules=["Kust.Props.C06"],
-    theorems=["Kust.C06.over_get", "Kust.C06.over_assoc", "Kust.C06.create_on_absent", "Kust.C06.merge_on_absent_fails",
+    modules=["Kust.Props.C06", "Kust.Props.C06b"],
+    theorems=["Kust.C06.validated_is_dictionary", "Kust.C06.key_repeated_across_sources_rejected", "Kust.C06.validate_spec", "Kust.C06.load_order",
+              "Kust.C06.over_get", "Kust.C06.over_assoc", "Kust.C06.create_on_absent", "Kust.C06.merge_on_absent_fails",
               "Kust.C06.replace_on_absent_fails", "Kust.C06.create_on_present_fails", "Kust.C06.merge_on_present", "Kust.C06.replace_on_present", "Kust.C06.merge_on_present_bin", "Kust.C06.replace_on_present_bin",
               "Kust.C06.layer_fold", "Kust.C06.suffix_ignores_envelope", "Kust.C06.equal_content_equal_suffix",
               "Kust.C06.subst_injective_on_hex", "Kust.C06.subst_expected", "Kust.C06.suffix_length"],
-    components=["gen.hash", "gen.literals", "gen.absorb"],
+    components=["gen.hash", "gen.literals", "gen.absorb", "gen.sources"],
     oracle=True,
     n_corr={"quick": 2000, "thorough": 30000}, n_oracle={"quick": 500, "thorough": 6000},
     technique="Lean 4 proof (dictionary algebra of create/merge/replace over any chain; suffix depends on content only; regenerated digit substitution injective on hex) + Go/Lean correspondence of literal parsing, AbsorbAll and hasher.Hash (Lean SHA-256 + JSON escaping in the driver) + independent-hash oracle on whole builds",
